@@ -124,21 +124,21 @@ known("F2b", SCP + ["C15"],
       ["missed_leak", "missing_outcome", "bounded_only_failure", "bounded_result_not_in_unbounded"], "label:send_after_rx_drop",
       case("C09", "known", "t0: spawn(1); spawn(2); Send(v=1); join(1); join(2) || t1: Send(v=2) || t2: Yield", rx_owner=2))
 
-known("F5a", SCP,
+fixed("F5a", ["C01", "C04", "C05", "C08"], "5d6c669",
       "the park token lives in the thread's run state and `unpark` makes any blocked thread runnable: unparking a thread that is "
       "blocked in join makes it runnable although the joined thread has not finished -> panic `assertion failed: state.notified`; "
       "blocked on a mutex -> `expected to be able to acquire lock` (src/rt/thread.rs Thread::unpark / set_unparked)",
-      ["unexpected_panic", "false_deadlock", "missed_deadlock", "impossible_outcome", "invalid_trace"], "unpark_blocked_target",
+      ["unexpected_panic", "false_deadlock", "missed_deadlock", "impossible_outcome", "invalid_trace"],
       case("C05", "known", "t0: spawn(1); join(1) || t1: Lock(m=0); Incr(m=0); Unpark(t=0); Incr(m=0); Unlock(m=0)"))
-known("F5c", SCP,
+fixed("F5c", ["C01", "C04", "C05", "C08"], "5d6c669",
       "park/unpark are not scheduling points and the unparker's clock is joined into the target at unpark time: "
       "`unpark(t1); c0.write; unpark(t1) || t1: park; c0.read` is explored in one order only and the data race is never reported",
-      ["missed_race"], "unpark_na_unsafe",
+      ["missed_race"],
       case("C08", "known", "t0: spawn(1); Unpark(t=1); CellWrite(c=0); Unpark(t=1) || t1: Park; CellRead(c=0)"))
-known("F5d", SCP,
+fixed("F5d", ["C01", "C04", "C05", "C08"], "5d6c669",
       "park/unpark are not scheduling points: with two unparks racing two parks of the same thread only one relative order is "
       "explored, so the execution in which both unparks precede the first park (one token, second park blocks forever) is missed",
-      ["missed_deadlock", "missing_outcome"], "park_unpark_twice",
+      ["missed_deadlock", "missing_outcome"],
       case("C05", "known", "t0: spawn(1); spawn(2); join(1); join(2) || t1: Park; Park || t2: Unpark(t=1); Unpark(t=1)"))
 known("F11", SCP,
       "two readers of an RwLock are treated as independent by the partial-order reduction although a reader's unlock synchronises "
@@ -147,11 +147,11 @@ known("F11", SCP,
       ["missed_race"], "write_under_read_lock",
       case("C07", "known", "t0: spawn(1); Read(r=0); CellWrite(c=0); UnlockR(r=0) || t1: Read(r=0); CellWrite(c=0); UnlockR(r=0)"))
 
-known("F5e", SCP,
+fixed("F5e", ["C01", "C04", "C05", "C08"], "5d6c669",
       "Notify::notify wakes its waiter through the park/unpark state: a second notify that finds the waiter already runnable stores "
       "a park token in it, so a later thread::park returns although nobody called unpark: "
       "`nf.wait; park || nf.notify; nf.notify; nf.notify` completes instead of deadlocking (src/rt/notify.rs notify -> Thread::unpark)",
-      ["impossible_outcome", "missed_deadlock", "invalid_trace"], "notify_then_park",
+      ["impossible_outcome", "missed_deadlock", "invalid_trace"],
       case("C08", "known", "t0: spawn(1); NfWait(n=0); Park; join(1) || t1: NfNotify(n=0); NfNotify(n=0); NfNotify(n=0)"))
 
 known("F12", ["C02", "C18"],
